@@ -46,11 +46,13 @@ theorem C06_eval_style_free {Src : Type} (eval : Src → List Stmt) (src : Src) 
     declarations, values and kept comments) — non-`/*!` comments, optional semicolons, indentation,
     blank lines and the optional spaces after `,` `:` and around combinators / `/` are the only
     differences, and they are not in the canonical tree.
-    Guards: `treeG t` (opaque pieces flat, unquoted atoms not starting with `*`, headers not starting
-    with whitespace or `/`, comment tokens; quoted strings unconstrained) and no BOM/`@charset` at
-    the start of the body.  The canonical text is coarse: ALL spaces/newlines outside strings and
-    comments are dropped (see `sq`), so it does not distinguish `a b` from `ab`; the finer comparison
-    is done on grass's output by the Python canonicaliser. -/
+    Guards: `treeG t` (selector combinators are `>` `+` `~`, the other opaque pieces — compounds,
+    property names, unquoted atoms, queries, at-rule headers — are flat, unquoted atoms do not start
+    with `*`, headers do not start with whitespace or `/`, comments are `/* … */` tokens; quoted
+    strings are unconstrained) and no BOM/`@charset` at the start of the body.
+    The canonical text (`nm`) normalises whitespace outside strings and comments — a run becomes one
+    space and vanishes at the ends and next to `, > + ~` (preludes) or `, / :` (items) — so `a b` and
+    `ab`, `a > b` and `a b` stay different; number/colour spellings are opaque text here (C07/C15). -/
 theorem C06_style_equiv_model (cs cs' : Bool) (t : List Stmt) (h : treeG t = true)
     (hc : hasCharsetOrBom (serialize .compressed false t) = false)
     (he : hasCharsetOrBom (serialize .expanded false t) = false) :
